@@ -1150,7 +1150,7 @@ func (rl *Shell) printLastKeyboardMacro() {
 
 	rl.Macros.PrintLastMacro()
 
-	rl.Prompt.PrimaryPrint()
+	rl.Display.PrintPrimaryPrompt()
 	rl.Display.Refresh()
 }
 
@@ -1469,7 +1469,7 @@ func (rl *Shell) dumpFunctions() {
 	fmt.Println()
 
 	defer func() {
-		rl.Prompt.PrimaryPrint()
+		rl.Display.PrintPrimaryPrompt()
 		rl.Display.Refresh()
 	}()
 
@@ -1486,7 +1486,7 @@ func (rl *Shell) dumpVariables() {
 	fmt.Println()
 
 	defer func() {
-		rl.Prompt.PrimaryPrint()
+		rl.Display.PrintPrimaryPrompt()
 		rl.Display.Refresh()
 	}()
 
@@ -1553,7 +1553,7 @@ func (rl *Shell) dumpMacros() {
 	fmt.Println()
 
 	defer func() {
-		rl.Prompt.PrimaryPrint()
+		rl.Display.PrintPrimaryPrompt()
 		rl.Display.Refresh()
 	}()
 
